@@ -898,6 +898,10 @@ def run(ctx) -> dict:
     counts: dict[str, int] = {}
     results = [r02_1(ctx, counts), r02_2(ctx, counts), r02_3(ctx, counts), r02_4(ctx, counts),
                r02_5(ctx, counts)]
+    from .c05_purity import r05_8
+    r6 = r05_8(ctx, counts)
+    r6.title = 'NO-MEMO-OF-LAZY-SNAPSHOT (R02.6 = R05.8)'
+    results.append(r6)
     return {
         'results': results, 'counts': counts,
         'explanation':
